@@ -478,6 +478,7 @@ Proof.
   - simpl in H. destruct (Nat.ltb slot (length (s_slots s))); [|discriminate]. inversion H; subst; clear H.
     rewrite frames_spawn. simpl. eapply edge_on_frames; [|exact Inv].
     intros to Hp. left. eapply pending_incl; [|exact Hp]. intros f Hf. apply in_app_iff. left. exact Hf.
+  - simpl in H. destruct (Nat.ltb r (length (s_rrs s))); [|discriminate]. inversion H; subst; clear H. exact Inv.
 Qed.
 
 Lemma init_nodes_out : forall k j n, n_out (getn (init_nodes k j) n) = [].
